@@ -387,6 +387,9 @@ func runCfgCase(t *testing.T, r *ev.Run, nc nodeCase) {
 		for _, name := range nc.Spec.Unset { // the gated option is decided by the config file
 			delete(env, name)
 		}
+		for k, v := range nc.Spec.Env { // spelling cases: the option as written by the operator
+			env[k] = v
+		}
 		return startSpec{Env: env, File: nc.Spec.File, Unset: nc.Spec.Unset, Files: ownedFiles} // File/Unset: the gating option of a "gating" case
 	}
 	res := runNode(t, mkSpec(), func(sys *core.System, base string) { obs = actions(c, sys, base) })
@@ -417,6 +420,17 @@ func runCfgCase(t *testing.T, r *ev.Run, nc nodeCase) {
 		verdict = "started"
 	}
 	sig := strings.Join(ins, "+")
+	if nc.Kind == "spelling" {
+		// the insecure value of a name-valued option, spelled differently (case, spaces, position in a list, duplicates)
+		r.Outcome(fmt.Sprintf("spelling: insecure-at-start=%v %s", len(ins) > 0, verdict))
+		if len(ins) > 0 && res.Started {
+			r.Violation("C20|node|strict-started|"+sig+"|spelling", fmt.Sprintf("strict mode on, configuration is insecure (%s) but with the value written as %s the node started", sig, nc.Flag), nc)
+		}
+		if res.Started {
+			judgeActions(r, nc, c, res, obs, "|spelling")
+		}
+		return
+	}
 	if nc.Kind == "gating" {
 		// a gating case: one insecure setting (or the strict baseline with dummy means) under one value of one other option
 		r.Outcome(fmt.Sprintf("gating: insecure=%v %s", len(ins) > 0, verdict))
